@@ -3,7 +3,7 @@
 from /verif/seeded/*/meta.json and the table of my own edits from sensitivity/RESULTS.txt."""
 import json, glob, os, re
 rows = []
-for d in sorted(glob.glob('/verif/seeded/*'), key=lambda p: (p.split('/')[-1].split('-')[0], int(p.split('-')[-1]))):
+for d in sorted(glob.glob('/verif/seeded/C*-*'), key=lambda p: (p.split('/')[-1].split('-')[0], int(p.split('-')[-1]))):
     m = json.load(open(d + '/meta.json'))
     det = m.get('detection', {})
     what = m.get('summary', '').replace('|', '/').replace('\n', ' ')
